@@ -1,0 +1,75 @@
+//go:build verif
+
+package main
+
+// Case-file driven driver for the verification harness (property C08): calls the unexported
+// copyMediaData on a lazily decoded progressive file.
+//
+// Input  ($C08_CASES), one case per line:  M <id> <file hex> <startSampleNr> <endSampleNr>
+// Output ($C08_OUT):                       <id> <o:<hex of the bytes written>|e|p>
+
+import (
+	"bufio"
+	"bytes"
+	"encoding/hex"
+	"fmt"
+	"os"
+	"strconv"
+	"strings"
+	"testing"
+
+	"github.com/Eyevinn/mp4ff/mp4"
+)
+
+func TestVerifC08(t *testing.T) {
+	in, outPath := os.Getenv("C08_CASES"), os.Getenv("C08_OUT")
+	if in == "" || outPath == "" {
+		t.Skip("C08_CASES / C08_OUT not set")
+	}
+	fi, err := os.Open(in)
+	if err != nil {
+		t.Fatal(err)
+	}
+	defer fi.Close()
+	fo, err := os.Create(outPath)
+	if err != nil {
+		t.Fatal(err)
+	}
+	defer fo.Close()
+	w := bufio.NewWriter(fo)
+	defer w.Flush()
+	sc := bufio.NewScanner(fi)
+	sc.Buffer(make([]byte, 1<<20), 1<<28)
+	for sc.Scan() {
+		f := strings.Split(sc.Text(), " ")
+		if len(f) != 5 || f[0] != "M" {
+			continue
+		}
+		data, err := hex.DecodeString(f[2])
+		if err != nil {
+			t.Fatal(err)
+		}
+		a, _ := strconv.ParseUint(f[3], 10, 32)
+		b, _ := strconv.ParseUint(f[4], 10, 32)
+		res := c08Run(data, uint32(a), uint32(b))
+		fmt.Fprintf(w, "%s %s\n", f[1], res)
+	}
+}
+
+func c08Run(data []byte, a, b uint32) (res string) {
+	defer func() {
+		if r := recover(); r != nil {
+			res = "p"
+		}
+	}()
+	rs := bytes.NewReader(data)
+	mf, err := mp4.DecodeFile(rs, mp4.WithDecodeMode(mp4.DecModeLazyMdat))
+	if err != nil {
+		return "e"
+	}
+	var buf bytes.Buffer
+	if err = copyMediaData(mf.Moov.Trak, a, b, rs, &buf); err != nil {
+		return "e"
+	}
+	return "o:" + hex.EncodeToString(buf.Bytes())
+}
